@@ -121,6 +121,18 @@ notes={
  'C16-M':'+ arrays directly inside arrays in the nested document of C16',
  'C18-M':'+ a byte that is not UTF-8 written for U+FFFD in quoted and in dot spellings',
  'C19-M':'+ descriptors whose string literals / regular expressions hold backslash sequences, and a probe document that tells their readings apart',
+ 'C02-O':'+ an empty (non-nil) Config slice spread into Parse / Retrieve',
+ 'C05-P':'a function name matched regardless of letter case: outside what the valid-path generator of C05 can write; caught by C17 / C02 (case variants of the registered names must be ErrorFunctionNotFound)',
+ 'C06-P':'+ shared parsed functions whose user function "fre" calls that very parsed function again (the recursion ends by the value, no state shared between goroutines)',
+ 'C07-P':'+ member names with U+0000 that agree up to it (k, k\\0, k\\0a, k\\0b)',
+ 'C10-P':'+ numbers beyond the float64 range (1e999, -1e999) among the members and root operands',
+ 'C11-O':'+ the subscripts of every random case also in accessor mode (every index, duplicates kept)',
+ 'C11-P':'+ ... and with a filter function directly behind them',
+ 'C13-O':'+ documents in which one container is reachable by two paths, in accessor mode (C13)',
+ 'C14-P':'+ documents with non-JSON values in C14 (a nil []interface{} is an array without elements)',
+ 'C16-P':'+ the member addressed after non-ASCII dot and bracket names',
+ 'C18-O':'+ integers padded with 22 leading zeros',
+ 'C19-O':'+ Configs copied from a base holding 0..5 functions, each copy registering one more: what was registered through a copy stays reachable through it',
  'C20-G':'+ defined types over float64 / string / bool and json.RawMessage among the opaque values',
 }
 rows=[]
